@@ -450,9 +450,10 @@ class Many:
     """ln elements, each produced by mk(state) -> Obj (assumptions about the
     element are pushed into the state by mk).  `fresh`: the elements are
     owned by this list (copies)."""
-    __slots__ = ('ln', 'mk', 'fresh', 'first', 'last', 'label')
+    __slots__ = ('ln', 'mk', 'fresh', 'first', 'last', 'label', 'indexed')
 
-    def __init__(self, ln, mk, fresh=False, label=''):
+    def __init__(self, ln, mk, fresh=False, label='', indexed=None):
+        self.indexed = indexed   # fn(state, abs_index, elem): assumptions
         self.ln = ln
         self.mk = mk
         self.fresh = fresh
